@@ -41,7 +41,8 @@ func (r *symlinkResolver) append(p string) error {
 			p = absParts[1]
 		}
 	}
-	p = filepath.Join(".", p)
+	// resolve the request as if the root of the FS was "/": ".." cannot climb above it
+	p = filepath.Join(".", filepath.Join(string(filepath.Separator), p))
 	current := "."
 	for {
 		parts := strings.SplitN(p, string(filepath.Separator), 2)
